@@ -17,12 +17,20 @@
 (*   cm     character map: "low" (U+0020.. only), "bmp" (also U+FFFF),     *)
 (*          "astral" (also U+FFFF, U+1F600, U+10FFFF; 32-bit subtable)     *)
 (*   nm     glyph names: absent, short, long (63 characters)               *)
+(*   cm     ... or "none": no character map at all (CMapTable = nil)       *)
+(*   wd     TrueType only, the optional Widths slice of the font value at  *)
+(*          the edge of what Font.Write accepts: one entry per glyph,      *)
+(*          nil, empty, too short, too long (missing entries count as 0,   *)
+(*          surplus entries are ignored: Font.Widths)                      *)
+(* Every description carries req, the tables the written file must contain *)
+(* (ContainerOps!RequiredNames): a font file without one of them is not a  *)
+(* well-formed font, whatever the container looks like.                    *)
 (* Pairs = FALSE selects a Latin-square style subset (|Upems| x |Kinds|    *)
 (* fonts) rotated by Shift (derived from VERIF_SEED); Pairs = TRUE takes   *)
 (* every (upem, ng, kind) combination.  The ASSUME makes TLC itself verify *)
 (* that every value of every dimension occurs in every run.                *)
 (***************************************************************************)
-EXTENDS Integers, Sequences, FiniteSets, TLC, Json
+EXTENDS ContainerOps, TLC, Json
 
 CONSTANTS Shift, Pairs
 
@@ -30,28 +38,34 @@ Kinds  == <<"ttf", "cff", "cid">>
 Upems  == <<16, 17, 1000, 2048, 16383, 16384>>
 Counts == <<1, 2, 255, 256, 257, 1000>>
 Advs   == <<"cycle", "max", "zero">>
-Cmaps  == <<"low", "bmp", "astral">>
+Cmaps  == <<"low", "bmp", "astral", "none">>
+Wds    == <<"exact", "nil", "long", "empty", "short">>
 Names  == <<"absent", "short", "long">>
 
 Desc(iu, ig, ik) ==
   [kind |-> Kinds[ik + 1], upem |-> Upems[iu + 1], ng |-> Counts[ig + 1],
    adv  |-> Advs[((iu + ig + Shift) % 3) + 1],
-   cm   |-> Cmaps[((iu + ik + Shift) % 3) + 1],
-   nm   |-> Names[((iu + 2 * ik + ig) % 3) + 1]]
+   cm   |-> Cmaps[((iu + ik + Shift) % 4) + 1],
+   nm   |-> Names[((iu + 2 * ik + ig) % 3) + 1],
+   wd   |-> IF ik = 0 THEN Wds[((iu + Shift + (IF Pairs THEN ig ELSE 0)) % 5) + 1] ELSE "exact",
+   req  |-> SetToSortSeq(RequiredNames(IF ik = 0 THEN "ttf" ELSE "cff", ((iu + ik + Shift) % 4) # 3),
+                         LAMBDA a, b : TagLess(TagOf(a), TagOf(b)))]
 
 Selected ==
   IF Pairs THEN {Desc(iu, ig, ik) : iu \in 0..5, ig \in 0..5, ik \in 0..2}
            ELSE {Desc(iu, (iu + ik + Shift) % 6, ik) : iu \in 0..5, ik \in 0..2}
 
-Range(s) == {s[i] : i \in 1..Len(s)}
+Vals(s) == {s[i] : i \in 1..Len(s)}
 Covers ==
-  /\ {d.kind : d \in Selected} = Range(Kinds)
-  /\ {d.upem : d \in Selected} = Range(Upems)
-  /\ {d.ng   : d \in Selected} = Range(Counts)
-  /\ {d.adv  : d \in Selected} = Range(Advs)
-  /\ {d.cm   : d \in Selected} = Range(Cmaps)
-  /\ {d.nm   : d \in {e \in Selected : e.kind = "ttf"}} = Range(Names)   \* names are observable for TrueType
-  /\ \A u \in Range(Upems) : {d.kind : d \in {e \in Selected : e.upem = u}} = Range(Kinds)
+  /\ {d.kind : d \in Selected} = Vals(Kinds)
+  /\ {d.upem : d \in Selected} = Vals(Upems)
+  /\ {d.ng   : d \in Selected} = Vals(Counts)
+  /\ {d.adv  : d \in Selected} = Vals(Advs)
+  /\ {d.cm   : d \in Selected} = Vals(Cmaps)
+  /\ {d.nm   : d \in {e \in Selected : e.kind = "ttf"}} = Vals(Names)   \* names are observable for TrueType
+  /\ {d.wd   : d \in {e \in Selected : e.kind = "ttf"}} = Vals(Wds)
+  /\ \A d \in Selected : ("cmap" \in Vals(d.req)) = (d.cm # "none")
+  /\ \A u \in Vals(Upems) : {d.kind : d \in {e \in Selected : e.upem = u}} = Vals(Kinds)
 ASSUME Covers
 
 VARIABLE d
